@@ -399,8 +399,10 @@ class Parser(IdlVisitor):
 
         targets: list[str] = [target.getText() for target in ctx.TARGET()]
         if "+any" in targets:
-            includes = self.target_keys
+            includes = list(self.target_keys)
         for target in targets:
+            if target == "+any":
+                continue
             if target.startswith('+'):
                 includes.append(target[1:])
             else:
